@@ -15,7 +15,7 @@ ASSUMPTIONS = [
     "a Go function that does not import unsafe cannot access memory outside its slices; out-of-range indexing panics",
 ]
 
-BAD = re.compile(r"panic|OVER|DIRTY|CRASH|INPUT-MODIFIED|err-with-count|DRIVER-DIED")
+BAD = re.compile(r"panic|OVER|DIRTY|CRASH|INPUT-MODIFIED|READS-OUTSIDE-INPUT|err-with-count|DRIVER-DIED")
 
 
 def oracle_fail(orc, kinds):
@@ -38,6 +38,8 @@ def j_c04(c, il, orc):
     out = oracle_fail(orc, ("dec",))
     if "dstdep=DEP" in il:
         out.append(("decoded bytes depend on the destination's prior contents", "independent"))
+    if "READS-OUTSIDE-INPUT" in il:
+        out.append(("the result depends on bytes outside the source / dictionary slices", "a function of src, dict and len(dst) only"))
     return out
 
 def j_c12(c, il, orc):
